@@ -210,8 +210,10 @@ def impl_eval(jobs):
         server = aioftp.Server()
         perm_cache = {}
 
-        def mk_user(table, base="."):
+        def mk_user(table, base=".", home=None):
             perms = [aioftp.Permission(p, readable=r, writable=w) for p, r, w in table]
+            if home is not None:
+                return aioftp.User(base_path=base, home_path=home, permissions=perms)
             return aioftp.User(base_path=base, permissions=perms)
 
         async def perm_of(verb):
@@ -288,7 +290,7 @@ def impl_eval(jobs):
 
         for j in jobs:
             if j["kind"] == "get":
-                user = mk_user(j["table"])
+                user = mk_user(j["table"], home=j.get("home"))
                 try:
                     got = await user.get_permissions(pathlib.PurePosixPath(j["path"]))
                 except Exception as e:  # noqa
@@ -327,6 +329,8 @@ def oracle_get(j, got):
     comps = [c for c in j["path"].split("/") if c]
     want = expected_index(table, comps)
     entry, idx = got
+    if idx >= len(table):
+        return "nearest", "the decision for %r (home directory %r) was taken from entry #%d of the user's table, %s - the table given to the constructor has %d entries" % (j["path"], j.get("home", "/"), idx, entry, len(table))
     if want == -1:
         if idx != -1 and not j["table"] == []:
             return "nearest", "no entry is an ancestor of %r but entry #%d %r was returned" % (j["path"], idx, table[idx])
@@ -371,11 +375,21 @@ def build_jobs(ctx, scale=1):
     # (1) lookups
     for _ in range(ctx.pick(30000, 300000) * scale):
         t = gen_table(rng)
-        jobs.append({"kind": "get", "table": t, "path": "/" + "/".join(gen_path(rng))})
+        path = "/" + "/".join(gen_path(rng))
+        job = {"kind": "get", "table": t, "path": path}
+        if rng.random() < 0.25:
+            # the user's other constructor arguments do not enter the decision: a home directory at, above or below the
+            # location asked about (and no entry of the table for it)
+            comps = [c for c in path.split("/") if c]
+            job["home"] = "/" + "/".join(comps[: rng.randint(0, len(comps))] + rng.choice([[], [], ["home"]]))
+        jobs.append(job)
     # fixed: the tutorial tables and the suite's two cases
     guido = [("/", False, False), ("/Guido", True, True)]
     for p in ["/", "/Guido", "/Guido/x", "/Guidoo", "/etc"]:
         jobs.append({"kind": "get", "table": guido, "path": p})
+    closed = [("/", True, True), ("/srv", False, False)]
+    for home, p in (("/srv/home", "/srv/home"), ("/srv/home", "/srv/home/x"), ("/srv/home", "/srv"), ("/srv", "/srv/x"), ("/other", "/other/x")):
+        jobs.append({"kind": "get", "table": closed, "path": p, "home": home})
     jobs.append({"kind": "get", "table": [], "path": "/x"})
     # (2) live guards on alias groups
     ngroups = ctx.pick(160, 1600) * scale
